@@ -644,7 +644,8 @@ pub fn rand_tpl(r: &mut Rng, depth: usize) -> Tpl {
 
 pub const TOKENS: &[&[u8]] = &[
     b"@", b"{", b"}", b"(", b")", b"[", b"]", b"\"", b"*", b"/", b"\\", b":", b",", b".", b"!", b"&", b"=", b"<", b">",
-    b" ", b"\n", b"if ", b"for ", b"in", b"else", b"match ", b"=>", b"ab", b"7", "é".as_bytes(), b"\xff", b"\xc3", b";",
+    b" ", b"\n", b"if ", b"for ", b"in", b"else", b"match ", b"=>", b"ab", b"7", "é".as_bytes(), b"\xff", b"\xc3", b";", b"\r",
+    b"\t",
 ];
 
 pub fn token_string(r: &mut Rng, max: usize) -> Vec<u8> {
